@@ -109,6 +109,10 @@ func gen(rt *rapid.T) Script {
 	}
 	s.CounterIDs = rapid.IntRange(0, 4).Draw(rt, "counter") == 0
 	s.JSON = rapid.IntRange(0, 3).Draw(rt, "json") == 0
+	if s.Stateless {
+		// (a stateless endpoint may be given an event store all the same: it neither issues nor honours ids)
+		s.Store = rapid.SampledFrom([]string{"", "memory"}).Draw(rt, "stateless_store")
+	}
 	if !s.Stateless {
 		s.Store = rapid.SampledFrom([]string{"", "", "memory", "failclose"}).Draw(rt, "store")
 		s.SloppyTool = rapid.IntRange(0, 2).Draw(rt, "sloppy_tool") == 0
